@@ -65,6 +65,21 @@ def contains_sentinel(x):
   return False
 
 
+class _EqAny:
+  """Equal to everything (unittest.mock.ANY-like); the REQUIRED marker is recognised by identity."""
+
+  def __init__(self, tag):
+    self.tag = tag
+
+  def __eq__(self, other):
+    return True
+
+  __hash__ = None
+
+  def __repr__(self):
+    return f'<any:{self.tag}>'
+
+
 def check_case(case):
   shape = case['shape']
   labels = {'kind:' + shape['kind'], 'api:' + shape['api']}
@@ -112,7 +127,16 @@ def check_case(case):
     gin.bind_parameter((scope, built.selector, param), value)
     model[(scope, param)] = value
   args = [real(a) for a in case['args']]
-  kwargs = {k: real(v) for k, v in case['kwargs'].items()}
+  for i in case.get('odd_args') or []:
+    if i < len(args) and args[i] is not gin.REQUIRED:
+      args[i] = _EqAny(args[i])
+      labels.add('surplus-positional-with-odd-eq')
+  kw_items = case['kwargs']
+  if case.get('kwargs_order'):
+    kw_items = {k: case['kwargs'][k] for k in case['kwargs_order'] if k in case['kwargs']}
+    if list(kw_items) != sorted(kw_items):
+      labels.add('keyword-order-varied')
+  kwargs = {k: real(v) for k, v in kw_items.items()}
   with contextlib.ExitStack() as es:
     for entry in case['entries']:
       es.enter_context(gin.config_scope(entry))
@@ -292,8 +316,15 @@ def strategy(draw):
       how = 'req'
     if how != 'omit':
       kwargs[p] = REQ if how == 'req' else 'K:' + p
+  # keyword arguments in any order (a **kwargs-absorbed name may come before a named one)
+  order = draw(st.permutations(sorted(kwargs)))
+  kwargs = {k: kwargs[k] for k in order}
+  odd = []
+  if n_pos > len(positional) and draw(st.integers(0, 2)) == 0:
+    # a surplus positional argument with an unhelpful == (mock.ANY, an array): it is not the marker
+    odd = [draw(st.integers(len(positional), n_pos - 1))]
   return {'shape': shape, 'entries': entries, 'bindings': bindings, 'args': args,
-          'kwargs': kwargs}
+          'kwargs': kwargs, 'kwargs_order': list(order), 'odd_args': odd}
 
 
 def sweep(tier):
